@@ -6,12 +6,27 @@ package fsm
 
 // fillContainers (C06, C13, C15, C19): pushes the collected strings into the user's variables.
 //   A-cb (assumed, as a precondition): the storage of a value is not one of the SetByUser flags.
+// The protocol trace of one container (C06, C19): a multi-valued value is cleared exactly once, then receives
+// exactly its strings, in order, through Set.
+//@ pure rec func setEvs(v any, vs []string, n int) trace =
+//@     n <= 0 ? noEvents() : setEvs(v, vs, n-1) ++ seq(evSet(v, vs[n-1], true))
+//@ pure func clearEvs(v any) trace = implements(v, "values.MultiValued") ? seq(evClear(v)) : noEvents()
+
 //@ func fillContainers
 //@   requires keys: forall k *container.Container :: k in containers ==> k != nil && k.Value != nil && ival(k.Value) != 0
 //@   requires a-cb-disjoint: forall k *container.Container, j *container.Container :: k.ValueSetByUser == nil || k.ValueSetByUser != ival(j.Value)
 //@   ensures set-by-user: result == nil ==> forall k *container.Container :: k in containers && k.ValueSetByUser != nil ==> deref(k.ValueSetByUser)
 //@   ensures env-flag-reset: result == nil ==> forall k *container.Container :: k in containers ==> !k.ValueSetFromEnv
 //@   ensures env-flag-frame: forall k *container.Container :: !(k in containers) ==> k.ValueSetFromEnv == old(k.ValueSetFromEnv)
+//@   ensures trace-grows: len(trace) >= len(old(trace))
+//@   ensures no-failed-set: result == nil ==> (forall i int :: len(old(trace)) <= i && i < len(trace) && trace[i].kind == 5 ==> trace[i].b == 1)
+//@   ensures error-is-a-set-failure: result != nil ==> len(trace) > len(old(trace)) && trace[len(trace)-1].kind == 5 && trace[len(trace)-1].b == 0
+//@   loop 1 invariant trace-grows: len(trace) >= len(old(trace))
+//@   loop 1 invariant no-failed-set: forall i int :: len(old(trace)) <= i && i < len(trace) && trace[i].kind == 5 ==> trace[i].b == 1
+//@   loop 1 step protocol: trace == (startTrace(1) ++ clearEvs(con.Value)) ++ setEvs(con.Value, vs, len(vs))
+//@   loop 2 invariant protocol: trace == (startTrace(1) ++ clearEvs(con.Value)) ++ setEvs(con.Value, vs, $k)
+//@   loop 2 invariant trace-grows: len(trace) >= len(old(trace))
+//@   loop 2 invariant no-failed-set: forall i int :: len(old(trace)) <= i && i < len(trace) && trace[i].kind == 5 ==> trace[i].b == 1
 //@   loop 1 invariant done: forall k *container.Container :: iterdone(k) ==> !k.ValueSetFromEnv && (k.ValueSetByUser != nil ==> deref(k.ValueSetByUser))
 //@   loop 1 invariant sub: forall k *container.Container :: iterdone(k) ==> (k in containers)
 //@   loop 1 invariant frame: forall k *container.Container :: !(k in containers) ==> k.ValueSetFromEnv == old(k.ValueSetFromEnv)
